@@ -16,5 +16,7 @@ meta = {
     },
     "check_result": {"command": f"lib/try_seed.sh {pid} seeded/{sid}/patch.diff quick", "verdict": verdict, "caught_by": caught},
 }
+if os.environ.get("ROUND"):
+    meta["round"] = os.environ["ROUND"]
 json.dump(meta, open(os.path.join(dst, "meta.json"), "w"), indent=1)
 print("kept", dst)
